@@ -682,3 +682,58 @@ contract(
              "uf('L2', x_prime['b_prime'][i]))",
              KEEP_X],
 )
+
+
+# ---- Angle: (angle, radius) <-> Cartesian ----------------------------------
+# closed forms of both directions and the accumulated log-Jacobian (log r:
+# the Jacobian of (theta, r) -> (x, y) is scale * r, a constant factor away).
+# The round trip rests on facts about cos / sin / arctan2 / sqrt that are
+# NOT proved here (library facts: polar decomposition is unique).
+RA = "nessai/reparameterisations/angle.py"
+XA = "Struct(a:Real,r:Real,logP:Real,logL:Real)"
+XAP = "Struct(a_x:Real,a_y:Real,logP:Real,logL:Real)"
+shape("AngleRP", {
+    "parameters": "PyConst(['a', 'r'])",
+    "prime_parameters": "PyConst(['a_x', 'a_y'])",
+    "scale": "Real", "chi": "PyConst(False)", "_zero_bound": "Bool",
+}, cls="Angle")
+for _m in ("_rescale_angle", "_rescale_radial", "_inverse_rescale_angle"):
+    contract(RA, f"Angle.{_m}", props=["C07"], inline=True, verify=False)
+contract(
+    RA, "Angle.reparameterise", props=["C07"], self_shape="AngleRP",
+    log_domain=True,
+    params={"x": XA, "x_prime": XAP, "log_j": "Seq(Real)", "**kwargs": {}},
+    requires=["len(x) == len(x_prime) and len(log_j) == len(x)"],
+    raises={"RuntimeError": "exists(i, 0, len(x), x['r'][i] < 0)"},
+    modifies=["x_prime", "log_j"], returns="Any",
+    ensures=["len(x_prime) == old(len(x_prime)) and "
+             "len(log_j) == old(len(log_j))",
+             "forall(i, 0, len(x), x_prime['a_x'][i] == x['r'][i] * "
+             "COS(x['a'][i] * self.scale) and x_prime['a_y'][i] == "
+             "x['r'][i] * SIN(x['a'][i] * self.scale))",
+             "forall(i, 0, len(x), log_j[i] == old(log_j)[i] + "
+             "LOG(x['r'][i]))",
+             "forall(i, 0, len(x), x_prime['logL'][i] == "
+             "old(x_prime['logL'])[i] and x_prime['logP'][i] == "
+             "old(x_prime['logP'])[i])"],
+)
+_AT = "ARCTAN2(x_prime['a_y'][i], x_prime['a_x'][i])"
+_PI2 = "(2.0 * PI)"
+contract(
+    RA, "Angle.inverse_reparameterise", props=["C07"], self_shape="AngleRP",
+    log_domain=True,
+    params={"x": XA, "x_prime": XAP, "log_j": "Seq(Real)", "**kwargs": {}},
+    requires=["len(x) == len(x_prime) and len(log_j) == len(x)",
+              "self.scale != 0"],
+    modifies=["x", "log_j"], returns="Any",
+    ensures=["len(x) == old(len(x)) and len(log_j) == old(len(log_j))",
+             "forall(i, 0, len(x), x['r'][i] == SQRT(x_prime['a_x'][i] * "
+             "x_prime['a_x'][i] + x_prime['a_y'][i] * x_prime['a_y'][i]))",
+             # an angle prior starting at zero is mapped back to [0, 2 pi)
+             f"forall(i, 0, len(x), x['a'][i] == (FMOD({_AT}, {_PI2}) "
+             f"if self._zero_bound else {_AT}) / self.scale)",
+             "forall(i, 0, len(x), log_j[i] == old(log_j)[i] - "
+             "LOG(x['r'][i]))",
+             "forall(i, 0, len(x), x['logL'][i] == old(x['logL'])[i] and "
+             "x['logP'][i] == old(x['logP'])[i])"],
+)
